@@ -197,6 +197,13 @@ class Obj(Val):
         return f"Obj<{getattr(self.cls, 'name', self.cls)}>"
 
 
+class IteVal(Val):
+    """conditional between values of different kinds (e.g. a block matrix entry that is an array or None)"""
+
+    def __init__(self, cond, a, b):
+        self.cond, self.a, self.b = cond, a, b
+
+
 class Opaque(Val):
     """A value the engine carries around but cannot look into (e.g. a path string, a Universe)."""
 
